@@ -936,6 +936,10 @@ class EventListenerPool(ProcessGroupBase):
             event.pool_serials = {}
         if self.config.name not in event.pool_serials:
             event.pool_serials[self.config.name] = new_serial(self)
+        elif not head:
+            # the pool is subscribed to this event's type and to one of its
+            # supertypes: it has already accepted this event
+            return
         else:
             self.config.options.logger.debug(
                 'rebuffering event %s for pool %s (buf size=%d, max=%d)' % (
